@@ -14,11 +14,47 @@ import z3
 # --------------------------------------------------------------------------- sorts
 INT = z3.IntSort()
 BOOL = z3.BoolSort()
-STR = z3.StringSort()
+# Text is an *uninterpreted* sort: every operation on it is an uninterpreted function constrained by
+# laws instantiated by the generator (laws.py).  z3's native string theory made even feasibility
+# checks time out (measured: 3 s per check, all `unknown`); with EUF + LIA they take milliseconds.
+STR = z3.DeclareSort("PStr")
 BYTE = z3.BitVecSort(8)
 BYTES = z3.SeqSort(BYTE)
-LSTR = z3.SeqSort(STR)
+QSTR = z3.SeqSort(STR)  # queues / logs of strings held in ghost state or deque slots
 REAL = z3.RealSort()
+
+s_len = z3.Function("s_len", STR, INT)
+s_code = z3.Function("s_code", STR, INT)  # injective on literals: makes distinct literals distinct
+
+_LITS = {}
+_LIT_BY_ID = {}
+_LIT_ORDER = []
+
+
+def _safe_name(s):
+    """SMT-LIB symbol-safe spelling of a literal (no quote, bar or backslash characters)."""
+    out = []
+    for ch in s:
+        if ch.isalnum() or ch in "_-.+/,:;= ":
+            out.append(ch)
+        else:
+            out.append(f"<{ord(ch):x}>")
+    return "[" + "".join(out) + "]"
+
+
+def strlit(s: str):
+    t = _LITS.get(s)
+    if t is None:
+        t = z3.Const("s:" + _safe_name(s), STR)
+        _LITS[s] = t
+        _LIT_BY_ID[t.get_id()] = s
+        _LIT_ORDER.append(s)
+    return t
+
+
+def lit_value(t):
+    """Python str if the term is a registered literal constant, else None."""
+    return _LIT_BY_ID.get(t.get_id())
 
 _pv = z3.Datatype("PyVal")
 _pv.declare("none")
@@ -32,7 +68,7 @@ KIND_SORT = {
     "bool": BOOL,
     "str": STR,
     "bytes": BYTES,
-    "liststr": LSTR,
+    "qstr": QSTR,
     "any": PYVAL,
     "real": REAL,
 }
@@ -102,7 +138,7 @@ def lift(v):
     if isinstance(v, int):
         return "int", z3.IntVal(v)
     if isinstance(v, str):
-        return "str", z3.StringVal(v)
+        return "str", strlit(v)
     if isinstance(v, (bytes, bytearray)):
         if len(v) == 0:
             return "bytes", z3.Empty(BYTES)
@@ -165,8 +201,10 @@ def simplify_val(kind, term):
             return True
         if z3.is_false(t):
             return False
-    if kind == "str" and z3.is_string_value(t):
-        return t.as_string() if not _has_escape(t) else SV(kind, t)
+    if kind == "str":
+        lv = lit_value(t)
+        if lv is not None:
+            return lv
     if kind == "any":
         if t.decl().eq(PYVAL.none):
             return None
@@ -179,11 +217,6 @@ def simplify_val(kind, term):
             if d.eq(PYVAL.B):
                 return simplify_val("bool", t.arg(0))
     return SV(kind, t)
-
-
-def _has_escape(t):
-    s = t.as_string()
-    return "\\u{" in s or "\\x" in s
 
 
 # --------------------------------------------------------------------------- obligations
@@ -234,6 +267,7 @@ class Ctx:
         self.mode = "exec"  # exec | assume | assert (polarity for forall in contracts)
         self.depth = 0
         self.concrete = False  # concrete mode: no symbolic values expected
+        self.suppress_index = False
 
     # ---- fresh symbols
     def fresh_term(self, sort, hint="v"):
@@ -263,6 +297,8 @@ class Ctx:
 
     # ---- universals (array property fragment, instantiated by the generator)
     def add_index_term(self, role, term):
+        if self.suppress_index:
+            return
         lst = self.index_terms.setdefault(role, [])
         for t in lst:
             if t.eq(term):
@@ -274,8 +310,22 @@ class Ctx:
         self.universals.append((tuple(roles), fn, name))
         self._dirty = True
 
+    def literal_facts(self):
+        n = getattr(self, "_lits_done", 0)
+        while n < len(_LIT_ORDER):
+            sv = _LIT_ORDER[n]
+            t = _LITS[sv]
+            f1 = s_code(t) == n
+            f2 = s_len(t) == len(sv)
+            self.pc.append(f1)
+            self.pc.append(f2)
+            self.solver.add(f1, f2)
+            n += 1
+        self._lits_done = n
+
     def instantiate(self):
         """Instantiate every registered universal at every recorded index term."""
+        self.literal_facts()
         guard = 0
         while self._dirty:
             self._dirty = False
